@@ -91,6 +91,12 @@ def handle (j : Json) : Json :=
                 ("val", match r.1.val with | some v => jn v | none => Json.null),
                 ("exc", match r.1.exc with | some v => jn v | none => Json.null),
                 ("env", envJson r.2.env), ("cenv", envJson r.2.cenv), ("real", Json.bool r.2.real)]
+  else if op == "proc_env" then
+    -- per request: the values the child sees for the probed keys (null = unset)
+    let base := envOf (jget j "base")
+    let keys := (jarr j "keys").map asNat
+    jl ((procEnvs base ((jarr j "reqs").map envOf)).map (fun e =>
+      jl (keys.map (fun k => match envGet e k with | some v => jn v | none => Json.null))))
   else Json.str "bad-op"
 
 end Driver.Raptor
